@@ -12,7 +12,8 @@ RULE = (
     "under False validity, 1-D or (N, K<=3), float64 or int64, arrays or nested lists) x weight form (None, scalar "
     "incl. 0 and NaN, float or int array, NaN-marked or with validity and junk) x ignore_missing x report format. "
     "The array cube receives the same dense data cast to a drawn integer dtype (int8..uint64), with explicit or "
-    "inferred shape. Oracle: pure-Python per-cell group-by with math.fsum; three-way comparison oracle / ccube / "
+    "inferred shape; the two cubes get fresh copies of the fact / weight arguments, or the very same objects one after "
+    "the other in either order. Oracle: pure-Python per-cell group-by with math.fsum; three-way comparison oracle / ccube / "
     "xcube: missing cells exactly, values to rtol 1e-12 in the dyadic mode (facts k/8, weights m/1024, all sums "
     "exact) and to 1e-9 x grand total in the rough-float mode. Non-trivial = (a weight or a multi-column fact) and "
     "at least one cell whose rows are partly valid and partly missing (the two policies differ there). "
@@ -52,6 +53,9 @@ def cases(draw, tier, aggs=AGGS, max_nd=None, big=True):
     spec["xdtypes"] = draw(st.lists(st.sampled_from(Q.INT_DTYPES), min_size=len(spec["dims"]),
                                     max_size=len(spec["dims"])))
     spec["xexplicit"] = draw(st.booleans())
+    # the two cube types computed one after the other on the SAME fact / weight objects (in either order), as a caller
+    # comparing them would; "fresh" gives each cube its own copies
+    spec["args"] = draw(st.sampled_from(["fresh", "shared", "shared_xcube_first"]))
     return spec
 
 
@@ -96,6 +100,11 @@ def check(case, rec):
     farg, warg, exp_v, exp_m, mixed, tol = expected(case, dense, full)
     Narg = N if (nd == 0 and agg == "count") else None
 
+    sharing = case.get("args", "fresh")
+    if sharing == "shared_xcube_first":
+        with libcall("xcube.%s (first use of the shared arguments)" % agg):
+            xc0, _ = Q.make_xcube(case, dense, case["xdtypes"], force_explicit=case["xexplicit"])
+            Q.call_agg(xc0, agg, farg, warg, case["ignore"], case["rma"], N=Narg)
     with libcall("ccube(...)"):
         cc, _ = Q.make_ccube(case, dense)
     via = case.get("via", "method")
@@ -118,8 +127,8 @@ def check(case, rec):
     gv, gm = fix0d(gv, gm, exp_v)
     Q.compare("ccube.%s" % agg, gv, gm, exp_v, exp_m, tol_abs=tol)
 
-    # fresh argument objects for the second cube type
-    farg, warg, _, _, _, _ = expected(case, dense, full)
+    if sharing == "fresh":
+        farg, warg, _, _, _, _ = expected(case, dense, full)
     with libcall("xcube(...)"):
         xc, used = Q.make_xcube(case, dense, case["xdtypes"], force_explicit=case["xexplicit"])
     with libcall("xcube.%s" % agg):
@@ -135,6 +144,7 @@ def check(case, rec):
     Q.compare("xcube.%s" % agg, xv, xm, ev, em, tol_abs=tol)
 
     w = case["weights"]
+    rec.note("args=" + sharing)
     rec.note("agg=" + agg, "nd=%d" % nd, "ignore=%s" % case["ignore"], "via=" + case.get("via", "method"),
              "weights=" + ("none" if w is None else w["kind"] + ("/" + w.get("form", "") if w["kind"] == "array" else "")
                            + ("/rough" if w is not None and w.get("rough") else "")),
